@@ -67,12 +67,16 @@ pub fn proxy_handler(
         simplified_uri.insert(0, '/');
     }
 
-    // Return error 403 if the address was blacklisted
-    if state
-        .config
-        .blacklist
-        .list
-        .contains(&request.address.origin_addr)
+    // Return error 403 if the address was blacklisted, whether it is the claimed origin of the
+    //   request or any address it was forwarded through (the last of which is the actual peer)
+    let blacklist = &state.config.blacklist.list;
+
+    if blacklist.contains(&request.address.origin_addr)
+        || request
+            .address
+            .proxies
+            .iter()
+            .any(|proxy| blacklist.contains(proxy))
     {
         state.logger.warn(format!(
             "{}: Blacklisted IP attempted to request {}",
